@@ -238,7 +238,7 @@ TransformA(CT, o, a, f, kwf) ==
 
 \* reset_<a> / del o.a : back to the default (a fresh copy), missing when there is none
 ResetA(CT, o, a) ==
-  IF IsMissing(o.a[a]) /\ IsMissing(DefaultOf(CT, o.c, a)) THEN Err(o, {"ok", "AttributeError"})      \* already missing: no-op or AttributeError
+  IF IsMissing(o.a[a]) /\ IsMissing(DefaultOf(CT, o.c, a)) THEN Ok(o)      \* already missing, nothing to restore: stays missing
   ELSE Ok(Invalidate(CT, [o EXCEPT !.a[a] = DefaultOf(CT, o.c, a)], a))
 
 RECURSIVE ResetAll(_, _, _)
@@ -415,7 +415,9 @@ Apply(CT, o, act) ==
          [] act.op = "transform" -> out(TransformA(CT, o, act.attr, act.f, act.kwf), inpl)
          [] act.op = "reset"     -> out(ResetA(CT, o, act.attr), inpl)
          [] act.op = "setattr"   -> out(With(CT, o, act.attr, act.v, <<>>), TRUE)
-         [] act.op = "delattr"   -> out(ResetA(CT, o, act.attr), TRUE)
+         \* del of an unset attribute without default raises AttributeError like any Python object
+         [] act.op = "delattr"   -> IF IsMissing(o.a[act.attr]) /\ IsMissing(DefaultOf(CT, o.c, act.attr)) THEN [val |-> o, res |-> {"AttributeError"}, same |-> TRUE]
+                                    ELSE out(ResetA(CT, o, act.attr), TRUE)
          [] act.op \in {"with_item", "update_item", "transform_item", "without_item"} -> out(ElemHelper(CT, o, act), inpl)
          [] act.op = "update_top" -> IF act.kw = <<>> THEN noop
                                      ELSE out(UpdateTop(CT, o, act.kw), inpl)
